@@ -11,10 +11,14 @@ THEOREMS = ["cid_self_certifying", "malformed_dropped", "prefix_roundtrip", "bat
             "batch_size_bound_partial", "batch_size_bound", "fitting_blocks_sent_once", "batch_oversize_witness",
             "presence_within_limit", "blocks_sent_regardless_of_presences",
             "response_delivered_or_dropped_whole", "cached_failure_requeues_whole",
-            "fresh_substream_runs_queue_in_order", "queue_untouched_by_other_events"]
-CONSTS = ["MAX_MESSAGE_SIZE", "MAX_BATCH_SIZE", "MAX_BATCH_BLOCKS"]
+            "fresh_substream_runs_queue_in_order", "queue_untouched_by_other_events",
+            "per_frame_timeout_only", "slow_link_flushes_whole_queue", "frame_over_timeout_fails_call"]
+CONSTS = ["MAX_MESSAGE_SIZE", "MAX_BATCH_SIZE", "MAX_BATCH_BLOCKS", "BITSWAP_WRITE_TIMEOUT_SECS"]
 _CFG = "src/protocol/libp2p/bitswap/config.rs"
+_MOD = "src/protocol/libp2p/bitswap/mod.rs"
+_WT_RX = r"const WRITE_TIMEOUT: Duration = Duration::from_secs\(([^)]+)\);"
 CONST_TABLE = [
+    ("BITSWAP_WRITE_TIMEOUT_SECS", _MOD, _WT_RX, 15),
     ("MAX_MESSAGE_SIZE", _CFG, r"pub const MAX_MESSAGE_SIZE: usize = ([^;]+);", 4194304),
     ("MAX_BATCH_SIZE", _CFG, r"pub const MAX_BATCH_SIZE: usize = ([^;]+);", 2097152),
     ("MAX_BATCH_BLOCKS", _CFG, r"pub const MAX_BATCH_BLOCKS: usize = ([^;]+);", 32768),
@@ -38,10 +42,18 @@ MANIFEST = {
             "response), cached_failure_requeues_whole, fresh_substream_runs_queue_in_order, "
             "queue_untouched_by_other_events (a queued response is dropped only by dial failure, open failure, closed "
             "connection, failed open after the dial, a failed call on the fresh substream, or when no substream can be "
-            "had); plus a seeded correspondence run of the real functions (send_response over an in-memory yamux "
+            "had); time (the far end of a substream takes a given virtual time to accept each message; every "
+            "send_framed has its own WRITE_TIMEOUT budget - the constant is read from bitswap/mod.rs -, nothing bounds a "
+            "call, a queue flush or a loop iteration): per_frame_timeout_only (over a far end that accepts every message "
+            "within WRITE_TIMEOUT a call writes all messages of its action however long that takes in total), "
+            "slow_link_flushes_whole_queue (the actions queued during the open / dial are all sent, in order, over such a "
+            "substream and it is cached), frame_over_timeout_fails_call (a message slower than WRITE_TIMEOUT fails its "
+            "call after exactly the messages before it); plus a seeded correspondence run of the real functions (send_response over an in-memory yamux "
             "substream with the codec of the real Config, on_message_received on a real Bitswap instance; the real Bitswap::run() loop with its BitswapHandle and a "
-            "real TransportService, the harness playing connections, dials, substream opens/failures, inbound "
-            "messages and the far ends of the substreams) against the "
+            "real TransportService on a paused tokio clock, the harness playing connections, dials, substream "
+            "opens/failures, inbound messages (whole, in pieces with virtual time in between, or held back across other "
+            "operations) and the far ends of the substreams (failing, stalling, or slow: a virtual delay per message)) "
+            "against the "
             "model and a property-level oracle that recomputes digests with hashlib.",
     "note": "Trusted: Lean kernel; axioms propext/Classical.choice/Quot.sound; the hand-written models and their tie "
             "(sampled differential runs through adapter src/verif/c20.rs); hash functions, prost, cid, multihash, "
@@ -66,7 +78,11 @@ RULE = ("seeded cases of 4-9 operations: prefix_enc/prefix_dec (boundary values,
         "every fifth case (fourth in the thorough tier) is a protocol-level dialogue on the real event loop: responses "
         "and requests over a cached substream that fails or stalls at every message index, over a fresh one, after a "
         "dial, with dial failures, open failures, closed connections, dead command channels, manager-view races, "
-        "queued actions behind a retry, inbound want-lists of every shape (valid v0/v1 CIDs, truncated at any offset, "
+        "queued actions behind a retry, slow but healthy links (every fifth dialogue: a response of 3-5 block messages "
+        "- or a queue of several actions - over a fresh substream, after a dial, over the cached substream, with a "
+        "virtual delay per message of WRITE_TIMEOUT/n+1 .. WRITE_TIMEOUT so that the whole exceeds WRITE_TIMEOUT while no "
+        "message does; in a fifth of them one message is slower than WRITE_TIMEOUT), inbound frames arriving in 2-4 "
+        "pieces with 0 ms .. 10 min between them or held back across other operations, inbound want-lists of every shape (valid v0/v1 CIDs, truncated at any offset, "
         "trailing bytes, bad versions, want types 0..2^31-1), inbound blocks and presences, undecodable / oversized / "
         "closed / reset inbound substreams; "
         "distinct = distinct (ops, observations) transcripts by SHA-256")
@@ -84,7 +100,12 @@ TRUSTED_BASE = ["Lean 4.33 kernel", "axioms: propext, Classical.choice, Quot.sou
 ASSUMPTIONS = ["batching ops: the only write error is the codec's rejection of a frame above its limit (modelled; "
                "send_response aborts the whole response on any write error or timeout); protocol-level ops: a substream "
                "accepts a chosen number of complete messages and then fails (at most two bytes into the next message) or "
-               "stalls until WRITE_TIMEOUT; a failure never corrupts an accepted message",
+               "stalls until WRITE_TIMEOUT, and takes a chosen virtual time (tokio's paused clock) before it accepts the "
+               "first byte of each message - the time of a message is not spread over its bytes; a failure never "
+               "corrupts an accepted message",
+               "time is virtual: the paused tokio clock advances to the next timer only when no task can run, so "
+               "computation takes no time and two timers set for the same instant fire together (a message that takes "
+               "exactly WRITE_TIMEOUT is accepted: tokio's Timeout polls the write first)",
                "protocol level: events are handled one operation at a time (run to quiescence); an inbound message is "
                "either prost-decodable or not (inbad uses payloads that are not); want types are non-negative",
                "oracle, protocol level: 'sent exactly once and in order' is judged per substream (a retry after a write "
@@ -95,6 +116,9 @@ ASSUMPTIONS = ["batching ops: the only write error is the codec's rejection of a
                "usize is 64 bits; sums of block sizes do not overflow",
                "oracle: the node's hash set is within {sha1, sha2, sha3, keccak, blake2b, blake2s, md5}; a block delivered "
                "under any other multihash code cannot be re-hashed by the oracle and is reported",
+               "oracle, slow links: WRITE_TIMEOUT is read from bitswap/mod.rs (its value is not part of the property); a "
+               "substream whose every message takes at most WRITE_TIMEOUT counts as healthy - a response cut short on it "
+               "or lost is reported -, one with a slower message counts as failing",
                "oracle: a block 'fits a message' iff its data is at most 2 MiB (MAX_BATCH_SIZE); the message limit is the "
                "protocol's 4 MiB; both are fixed in the oracle, not read from the repository"]
 KEEP_PREFIX = 0
@@ -449,6 +473,25 @@ def repo_cap():
         return CAP
 
 
+_WT_MS = None
+
+
+def write_timeout_ms():
+    """`WRITE_TIMEOUT` of bitswap/mod.rs as it stands in the repository (ms). The generator places the
+    per-frame delays of a slow link around it; the oracle needs it to tell a frame that legitimately
+    timed out from one that did not (the value itself is not part of the property)."""
+    global _WT_MS
+    if _WT_MS is None:
+        try:
+            import os, re
+            import extract_consts
+            src = open(os.path.join(extract_consts.REPO, _MOD)).read()
+            _WT_MS = 1000 * extract_consts.rust_int(re.search(_WT_RX, src).group(1))
+        except Exception:  # noqa
+            _WT_MS = 15000
+    return _WT_MS
+
+
 def uvar_len(n):
     return len(uvar(n))
 
@@ -571,6 +614,21 @@ def batches_of(sizes):
         n += 1
 
 
+def plan_tokens(tokens):
+    """The tokens after `subopen s<n>` / `plan s<n>` -> (frames the far end accepts before a call on it
+    fails - refused, stalled, or a frame slower than WRITE_TIMEOUT - or None, delays)."""
+    budget, late, delays = None, None, []
+    for x in tokens:
+        if x.startswith("slow="):
+            delays = [int(d) for d in x[5:].split(",")]
+            late = next((j for j, d in enumerate(delays) if d > write_timeout_ms()), None)
+        elif "=" in x:
+            budget = int(x.split("=")[1].split(".")[0])
+    if late is not None:
+        budget = late if budget is None else min(budget, late)
+    return budget, delays
+
+
 class Sim:
     """Book-keeping of names (s<n>, i<k>) and liveness for the generator: which operations make sense next.
     Not used by the oracle."""
@@ -579,6 +637,7 @@ class Sim:
         self.conns, self.view, self.out, self.pend, self.psubs = {}, {}, {}, {}, {}
         self.dials, self.opens, self.next, self.inb, self.nin, self.far = set(), {}, 0, {}, 0, {}
         self.fill, self.idx = 0, 0
+        self.held = set()
 
     def open_sub(self, p):
         if self.conns.get(p) is True:
@@ -675,9 +734,7 @@ class Sim:
                 if self.psubs.pop(n, None) is not None:
                     self.pend.pop(p, None)
                 return
-            budget = None
-            if len(t) > 2 and "=" in t[2]:
-                budget = int(t[2].split("=")[1].split(".")[0])
+            budget = plan_tokens(t[2:])[0]
             self.far[n] = [budget, False]
             q = self.pend.pop(p, None)
             if q is None:
@@ -693,7 +750,7 @@ class Sim:
         elif t[0] == "plan":
             n = int(t[1][1:])
             if n in self.far and not self.far[n][1]:
-                self.far[n][0] = None if t[2] == "ok" else int(t[2].split("=")[1].split(".")[0])
+                self.far[n][0] = plan_tokens(t[2:])[0]
         elif t[0] in ("resp", "req"):
             self.command(int(t[1]), self.frames_of(t))
         elif t[0] == "insub":
@@ -703,9 +760,18 @@ class Sim:
                 self.nin += 1
         elif t[0] in ("inbad", "inbig", "inclose", "inreset"):
             k = int(t[1][1:])
+            if t[0] in ("inbad", "inbig") and k in self.held:
+                return
+            self.held.discard(k)
             for p, v in list(self.inb.items()):
                 if v == k:
                     del self.inb[p]
+        elif t[0] == "inmsg" and any(a.startswith("hold=") for a in t):
+            k = int(t[1][1:])
+            if k in self.inb.values():
+                self.held.add(k)
+        elif t[0] == "inrest":
+            self.held.discard(int(t[1][1:]))
 
     @staticmethod
     def frames_of(t):
@@ -824,15 +890,64 @@ def in_message(rng, sim):
     return " ".join(args)
 
 
-def fate(rng, frames):
-    """How a substream ends: healthy, or a write failure / stall at a message index."""
+def slow_delays(rng, frames, late=False):
+    """Per-message delays of a slow link for a flush of `frames` messages: each within WRITE_TIMEOUT, all
+    together beyond it (when there are at least two); `late`: one message takes longer than WRITE_TIMEOUT."""
+    wt = write_timeout_ms()
+    n = max(frames, 2)
+    lo = wt // n + 1
     r = rng.random()
+    if r < 0.4:
+        ds = [rng.choice([lo, lo, wt // 2 + 1, wt - 1, wt])]
+    elif r < 0.8:
+        ds = [rng.choice([lo, wt // 2 + 1, wt - 1, wt, rng.randrange(lo, wt + 1)]) for _ in range(min(n, 12))]
+    else:
+        ds = [rng.choice([0, 1, 1000]) for _ in range(min(n, 12) - 1)] + [wt]
+        ds[rng.randrange(len(ds))] = wt
+    if late:
+        j = rng.randrange(0, min(n, 12))
+        ds += [ds[-1]] * (j + 1 - len(ds))
+        ds[j] = rng.choice([wt + 1, wt + 1, 2 * wt, wt + 1000])
+    return ds
+
+
+def slow_token(rng, frames, late=False):
+    return " slow=" + ",".join(map(str, slow_delays(rng, frames, late)))
+
+
+def fate(rng, frames):
+    """How a substream ends: healthy (possibly a slow link), or a write failure / stall at a message index."""
+    r = rng.random()
+    slow = slow_token(rng, frames, rng.random() < 0.3) if rng.random() < 0.12 else ""
     if r < 0.45:
-        return ""
+        return slow
     k = rng.randrange(0, max(frames, 1) + 1)
     if r < 0.85:
-        return f" fail={k}" + (f".{rng.choice([1, 2])}" if rng.random() < 0.3 else "")
-    return f" stall={k}"
+        return f" fail={k}" + (f".{rng.choice([1, 2])}" if rng.random() < 0.3 else "") + slow
+    return f" stall={k}" + slow
+
+
+def arrival(rng):
+    """How an inbound frame arrives: whole, in pieces with time in between (reads have no timeout), or only
+    its beginning for now."""
+    r = rng.random()
+    if r < 0.5:
+        return ""
+    if r < 0.78:
+        cuts = sorted(rng.sample(range(1, 48), rng.choice([1, 1, 2, 3])))
+        return f" cut={','.join(map(str, cuts))} gap={rng.choice([0, 1, 5000, 15000, 15001, 20000, 60000, 600000])}"
+    return f" hold={rng.choice([1, 1, 2, 3, 10, 50])}"
+
+
+def long_response(rng, sim, n):
+    """A response of `n` block messages (plus a presence message sometimes): n blocks no two of which share a
+    batch, small blocks and presences in between."""
+    items = [sim.block(rng.choice([BIG, BIG, BIG + 7, M])) for _ in range(n)]
+    if rng.random() < 0.4:
+        items.insert(rng.randrange(len(items) + 1), sim.block(rng.choice([1, 10, 1000])))
+    if rng.random() < 0.4:
+        items.insert(rng.randrange(len(items) + 1), sim.presence(rng))
+    return ",".join(items)
 
 
 def gen_proto_case(rng, tier):
@@ -848,9 +963,114 @@ def gen_proto_case(rng, tier):
     def resp(p, shape=None):
         emit(f"resp {p} k={kind} {p_response(rng, sim, shape)}")
 
-    family = rng.choice(["cached", "cached", "cached", "fresh", "dial", "walk", "walk", "inbound"])
+    family = rng.choice(["cached", "cached", "cached", "fresh", "dial", "walk", "walk", "inbound", "inbound", "slow",
+                         "slow", "edges", "edges"])
     p = rng.choice([1, 2, 3])
-    if family == "cached":
+    if family == "edges":
+        # short scripts for arms a random dialogue rarely reaches: a request that fails / times out on the fresh
+        # or on the cached substream (with responses queued behind it), events for a substream id the protocol
+        # has forgotten (its connection was closed in between)
+        wt = write_timeout_ms()
+        how = rng.choice(["req-fresh", "req-cached", "stale-open", "stale-fail", "dead-conn", "in-err", "in-err"])
+        dead = rng.choice(["stall=0", "fail=0", f"slow={wt + 1}", f"slow={2 * wt}", "fail=0.1"])
+        if how != "dead-conn":
+            emit(f"conn {p}")
+        if how == "dead-conn":
+            # the dial succeeds but the connection is gone before a substream can be opened on it
+            resp(p, rng.choice(["tiny", "multi"]))
+            emit(f"conn {p} dead")
+            emit(f"disc {p}")
+            emit(f"conn {p}")
+        elif how == "in-err":
+            # an inbound substream that ends with an error (reset, oversized frame) or cleanly, then a new one
+            emit(f"insub {p}")
+            emit(f"inmsg i0 {in_message(rng, sim)}".rstrip() + arrival(rng))
+            if sim.held and rng.random() < 0.5:
+                emit("inrest i0")
+            emit(f"{rng.choice(['inreset', 'inreset', 'inbig', 'inclose'])} i0")
+            emit(f"inmsg i0 {in_message(rng, sim)}".rstrip())
+            emit(f"insub {p}")
+            emit(f"inmsg i1 {in_message(rng, sim)}".rstrip() + arrival(rng))
+        elif how == "req-fresh":
+            emit(f"req {p} k={kind} {p_wants(rng, sim)}")
+            if rng.random() < 0.6:
+                resp(p, rng.choice(["tiny", "multi"]))          # dropped with the failing request
+            emit(f"subopen s0 {dead}")
+        elif how == "req-cached":
+            resp(p, "tiny")
+            emit("subopen s0")
+            emit(f"plan s0 {dead}")
+            emit(f"req {p} k={kind} {p_wants(rng, sim)}")       # fails over the cached substream, re-queued
+            if rng.random() < 0.5:
+                resp(p, rng.choice(["tiny", "multi"]))
+            if sim.opens:
+                emit(f"subopen s{max(sim.opens)}{slow_token(rng, 3) if rng.random() < 0.3 else ''}")
+        else:
+            resp(p, rng.choice(["tiny", "multi"]))
+            emit(f"disc {p}")
+            if rng.random() < 0.7:
+                emit(f"conn {p}")
+            if rng.random() < 0.5:
+                q = p % 3 + 1
+                emit(f"conn {q}")
+                resp(q, "tiny")                                  # another peer's queue must survive
+            emit("subopen s0" if how == "stale-open" else "subfail s0")
+            for n in sorted(sim.opens):
+                emit(f"subopen s{n}")
+        resp(p, "tiny")
+        if sim.opens:
+            emit(f"subopen s{max(sim.opens)}")
+    elif family == "slow":
+        # a slow but healthy link: every message is accepted within WRITE_TIMEOUT, the response (or the
+        # queue) takes longer than that as a whole - over the fresh substream, after a dial, over the cached
+        # substream; sometimes one message is slower than WRITE_TIMEOUT (that call fails)
+        items = long_response(rng, sim, rng.choice([3, 3, 4, 5]))
+        late = rng.random() < 0.2
+        how = rng.choice(["fresh", "fresh", "fresh", "cached", "plan", "dial", "dial"])
+
+        def total(queued=True):
+            # messages of the flush the delays are laid out for
+            return sum(sim.pend.get(p) or []) + (0 if queued else Sim.frames_of(["resp", str(p), "k", items]))
+
+        if how == "fresh":
+            emit(f"conn {p}")
+            r = rng.random()
+            if r < 0.2:
+                emit(f"req {p} k={kind} {p_wants(rng, sim)}")
+            elif r < 0.35:
+                resp(p, "tiny")
+            emit(f"resp {p} k={kind} {items}")
+            if rng.random() < 0.3:
+                resp(p, rng.choice(["tiny", "multi"]))
+            emit(f"subopen s0{slow_token(rng, total(), late)}")
+        elif how == "dial":
+            emit(f"resp {p} k={kind} {items}")
+            if rng.random() < 0.3:
+                emit(f"req {p} k={kind} {p_wants(rng, sim)}")
+            emit(f"conn {p}")
+            emit(f"subopen s0{slow_token(rng, total(), late)}")
+        else:
+            emit(f"conn {p}")
+            resp(p, "tiny")
+            if how == "cached":
+                emit(f"subopen s0{slow_token(rng, total(False), late)}")
+            else:
+                emit("subopen s0")
+                emit(f"plan s0{slow_token(rng, total(False), late)}")
+            emit(f"resp {p} k={kind} {items}")
+        if rng.random() < 0.3:
+            # meanwhile a remote is slow, too
+            q = rng.choice([p, 2])
+            if q not in sim.conns:
+                emit(f"conn {q}")
+            emit(f"insub {q}")
+            emit(f"inmsg i0 {in_message(rng, sim)}".rstrip() + arrival(rng))
+        resp(p, rng.choice(["tiny", "multi"]))
+        if sim.opens:
+            emit(f"subopen s{max(sim.opens)}{fate(rng, 3)}")
+        if sim.held:
+            emit(f"inrest i{min(sim.held)}")
+    elif family == "cached":
         # a response over a cached substream that dies at message index k; the retry over a fresh one
         emit(f"conn {p}")
         resp(p, "tiny")
@@ -927,7 +1147,15 @@ def gen_proto_case(rng, tier):
             k = max(sim.nin - 1, 0)
             r = rng.random()
             if r < 0.7:
-                emit(f"inmsg i{k} {in_message(rng, sim)}".rstrip())
+                emit(f"inmsg i{k} {in_message(rng, sim)}".rstrip() + arrival(rng))
+                if k in sim.held and rng.random() < 0.85:
+                    if rng.random() < 0.4:
+                        # something else happens while the frame is incomplete
+                        q = rng.choice([1, 2, 3])
+                        emit(rng.choice([f"resp {q} k={kind} {p_response(rng, sim, 'tiny')}",
+                                         f"req {q} k={kind} {p_wants(rng, sim)}", f"conn {q}",
+                                         f"inmsg i{k} {in_message(rng, sim)}".rstrip()]))
+                    emit(f"inrest i{k}")
             elif r < 0.78:
                 emit(f"inbad i{k} {rng.choice(['ff', '0a05', '08', '1a0301', '0affffffffffffffffffff01'])}")
             elif r < 0.84:
@@ -975,9 +1203,13 @@ def gen_proto_case(rng, tier):
                 emit(f"insub {p}")
             else:
                 emit(f"conn {p}")
-        else:
+        elif r < 0.985 or not sim.held:
             k = rng.randrange(0, sim.nin + 1)
-            emit(f"inmsg i{k} {in_message(rng, sim)}".rstrip())
+            emit(f"inmsg i{k} {in_message(rng, sim)}".rstrip() + arrival(rng))
+        else:
+            emit(f"inrest i{rng.choice(sorted(sim.held))}")
+    while sim.held and rng.random() < 0.7:
+        emit(f"inrest i{min(sim.held)}")
     return ops
 
 
@@ -1121,7 +1353,21 @@ def must_deliver(p):
 # ------------------------------------------------------------------ protocol level: oracle
 
 PROTO_OPS = {"conn", "disc", "conndead", "dialfail", "view", "subopen", "subfail", "plan", "resp", "req", "insub",
-             "inmsg", "inbad", "inbig", "inclose", "inreset"}
+             "inmsg", "inbad", "inbig", "inclose", "inreset", "inrest"}
+
+
+def plan_fails(tokens):
+    """Does the far end described by the tokens after `subopen s<n>` / `plan s<n>` ever make a call fail?
+    It does when it refuses or stalls a message, or takes longer than WRITE_TIMEOUT for ONE message. A link
+    that is merely slow - every message within WRITE_TIMEOUT, however long all of them take - does not:
+    whatever fits a message must still be sent over it."""
+    for x in tokens:
+        if x.startswith("slow="):
+            if any(int(d) > write_timeout_ms() for d in x[5:].split(",")):
+                return True
+        elif x != "ok":
+            return True
+    return False
 
 
 def parse_entries(s):
@@ -1145,6 +1391,7 @@ def parse_frames(field):
         return res
     for part in field.split(" "):
         name, _, body = part.partition("=")
+        name = name.split("@")[0]            # s<n>@<ms>: when the last of them was accepted
         frames = []
         for w in body.split("|"):
             if w.startswith("~"):
@@ -1197,6 +1444,8 @@ class ProtoOracle:
         self.in_peer = {}            # i<k> -> peer
         self.handed_subs = {}        # s<n> -> peer, substreams given to the protocol
         self.dead_subs = set()       # ... whose connection was closed afterwards
+        self.held = {}               # i<k> -> tokens of the `inmsg` whose frame is incomplete
+        self.in_alive = {}           # i<k> -> peer: inbound substreams the environment has not ended
 
     def note_excuse(self, p, i):
         self.excuse.setdefault(p, []).append(i)
@@ -1216,6 +1465,7 @@ class ProtoOracle:
         elif op == "disc" and res == "ok":
             p = int(t[1])
             self.connected.discard(p)
+            self.in_alive = {k: q for k, q in self.in_alive.items() if q != p}
             self.note_excuse(p, i)
             self.dead_subs |= {n for n, q in self.handed_subs.items() if q == p}
             self.outstanding = {n: q for n, q in self.outstanding.items() if q != p}
@@ -1231,12 +1481,12 @@ class ProtoOracle:
             n = int(t[1][1:])
             self.outstanding.pop(n, None)
             self.handed_subs[n] = self.sub_peer.get(n, 0)
-            if len(t) > 2 and t[2] != "ok":
+            if plan_fails(t[2:]):
                 self.failing[n] = i
                 self.note_excuse(self.sub_peer.get(n, 0), i)
         elif op == "plan" and res == "ok":
             n = int(t[1][1:])
-            if t[2] != "ok":
+            if plan_fails(t[2:]):
                 self.failing[n] = i
             else:
                 self.failing.pop(n, None)
@@ -1260,6 +1510,18 @@ class ProtoOracle:
             self.handed.append(h)
         elif op == "insub" and res.startswith("i"):
             self.in_peer[int(res[1:])] = int(t[1])
+            # (a second inbound substream of a peer replaces the first)
+            self.in_alive = {k: q for k, q in self.in_alive.items() if q != int(t[1])}
+            self.in_alive[int(res[1:])] = int(t[1])
+        elif op in ("inbad", "inbig", "inclose", "inreset") and res == "ok":
+            self.in_alive.pop(int(t[1][1:]), None)
+        elif op in ("inmsg", "inrest") and res == "none":
+            k = int(t[1][1:])
+            if k in self.in_alive and (op == "inrest") == (k in self.held):
+                self.v("inbound-substream-dropped", f"inbound substream i{k} of peer {self.in_alive[k]} was neither closed "
+                       f"nor reset nor replaced, its connection is open and every message on it was well-formed, yet the "
+                       f"protocol no longer reads it (reads have no timeout: a slow remote's want-list is lost)", i)
+                self.in_alive.pop(k, None)
         if calls != "-":
             for c in calls.split(","):
                 w = c.split(":")
@@ -1464,8 +1726,20 @@ def oracle(case, out):
             if proto is not None:
                 try:
                     proto.step(i, t, o)
-                    if t[0] == "inmsg":
+                    if t[0] == "inmsg" and any(a.startswith("hold=") for a in t):
+                        # only the beginning of the frame: nothing may be reported yet
+                        if o.startswith("ok;"):
+                            proto.held[int(t[1][1:])] = t
+                            if o.split(";")[2] != "-":
+                                v("event-from-incomplete-frame", "an event was reported before the frame was complete", i)
+                    elif t[0] == "inmsg":
                         check_inbound_events(v, i, t, o, proto.in_peer)
+                    elif t[0] == "inrest" and o.startswith("ok;"):
+                        whole = proto.held.pop(int(t[1][1:]), None)
+                        if whole is not None:
+                            check_inbound_events(v, i, whole, o, proto.in_peer)
+                    elif t[0] in ("inclose", "inreset"):
+                        proto.held.pop(int(t[1][1:]), None)
                 except (ValueError, IndexError, KeyError) as e:  # noqa
                     v("unexpected", f"unparseable observation {o[:80]} ({e})", i)
         elif t[0] == "prefix_enc" and len(t) == 5:
